@@ -161,6 +161,10 @@ impl From<core::time::Duration> for Duration {
 
 impl From<Duration> for core::time::Duration {
     fn from(x: Duration) -> Self {
+        if x.sec < 0 {
+            // core::time::Duration cannot be negative: an elapsed (negative) duration is zero
+            return core::time::Duration::ZERO;
+        }
         core::time::Duration::new(x.sec as u64, x.nanosec)
     }
 }
